@@ -51,6 +51,16 @@ _REDUCERS = frozenset(
         np.any,
         np.argmax,
         np.argmin,
+        np.ptp,
+        np.count_nonzero,
+        np.nansum,
+        np.nanprod,
+        np.nanmean,
+        np.nanstd,
+        np.nanvar,
+        np.nanmedian,
+        np.nanmax,
+        np.nanmin,
     }
 )
 
@@ -218,6 +228,10 @@ class FeArray(np.ndarray):
             # broadcasting against a FeArray always keeps the (Ne, nPg) axes
             return res.view(FeArray)
         feShape = _FeShape(inputs)
+        if method == "reduce" and not _KeepsFeAxes(
+            kwargs.get("axis", 0), np.ndim(inputs[0])
+        ):
+            feShape = ()
         if isinstance(res, tuple):
             return tuple(FeArray.__wrap(array, feShape) for array in res)
         return FeArray.__wrap(res, feShape)
